@@ -489,6 +489,8 @@ pub struct GenCfg {
     pub max_ops: u64,
     pub max_senders: u64,
     pub allow_drop: bool,
+    /// slow-death fault: some processes die only some time after a successful kill
+    pub kill_lag: bool,
 }
 
 pub fn gen_random(rng: &mut Rng, cfg: &GenCfg) -> E1Scn {
@@ -534,6 +536,9 @@ pub fn gen_random(rng: &mut Rng, cfg: &GenCfg) -> E1Scn {
             if rng.chance(1, 12) {
                 c.fail_wait = true;
             }
+        }
+        if cfg.kill_lag && rng.chance(1, 4) {
+            c.kill_lag = *rng.pick(&[1u64, 50, 1000, 6000, 60_000]);
         }
         children.push(c);
     }
